@@ -204,7 +204,7 @@ def b64_text_kind(t):
 @section
 def sec_base64(cx):
     chk = cx.chk
-    data = gen_bytes(cx, cx.n(700, 12000))
+    data = gen_bytes(cx, cx.n(400, 12000))
     # ---- encode: model correspondence + independent reader (python base64, strict)
     resp = vlib.yqh_parallel([{"op": "c14_enc", "fmt": "base64", "node": S(s)} for s in data])
     cases, inputs = [], []
@@ -307,7 +307,7 @@ URI_IMPORTS = "From YQ Require Import Base.Str Model.Uri."
 def sec_uri(cx):
     chk = cx.chk
     rng = cx.rng
-    data = gen_bytes(cx, cx.n(700, 12000))
+    data = gen_bytes(cx, cx.n(400, 12000))
     resp = vlib.yqh_parallel([{"op": "c14_enc", "fmt": "uri", "node": S(s)} for s in data])
     cases, inputs = [], []
     for s, r in zip(data, resp):
@@ -548,6 +548,77 @@ def sec_csv(cx):
             cx.viol("csvdec", dict(rp, want=want, response=r), "yq's %s decoder does not return the records that the text (ground truth written here) denotes" % fmt)
     cx.correspond("csvread", CSV_IMPORTS, "(fun p => csv_decode_obs (fst p) (snd p))", cases, inputs, "Model/Csv.v csv_decode vs decoder_csv_object.go + encoding/csv Reader")
     cx.dist["csv"] = {"row_documents": len(docs), "decode_texts": len(dtexts)}
+
+
+def coq_cnode(v):
+    if isinstance(v, dict):
+        return "CMap [" + ";".join("(%s, %s)" % (vlib.coq_str(k), coq_cnode(x)) for k, x in v.items()) + "]"
+    if isinstance(v, list):
+        return "CSeq [" + ";".join(coq_cnode(x) for x in v) + "]"
+    return "CScalar " + vlib.coq_str(v)
+
+
+@section
+def sec_csv_objects(cx):
+    """yq's header / object logic: array of objects (missing keys, extra keys, key order), array of arrays, array of scalars, errors"""
+    chk, rng = cx.chk, cx.rng
+    docs = []
+    keys = ["a", "b", "c", "k 1", "x,y", "é"]
+    for _ in range(cx.n(250, 4000)):
+        hdr = rng.sample(keys, rng.randrange(1, 4))
+        objs = []
+        for i in range(rng.randrange(1, 4)):
+            ks = list(hdr)
+            if i > 0 and rng.random() < 0.35:
+                ks = rng.sample(hdr, rng.randrange(0, len(hdr) + 1))          # missing keys, other order
+            if i > 0 and rng.random() < 0.15:
+                ks.append(rng.choice([k for k in keys if k not in hdr] or ["zz"]))   # a key the first object does not have
+            objs.append({k: gen_field(rng, 0.2) for k in ks})
+        if rng.random() < 0.08:
+            objs[rng.randrange(len(objs))][hdr[0]] = [gen_field(rng)]               # non-scalar value: must be an error
+        docs.append(objs)
+    docs += [[], ["x", "y"], [["a", "b"], ["c", "d"]], [["a"], "b"], [{"a": "1"}, ["x"]], ["a", ["b"]], [{"a": "1"}, "s"]]
+    fmts = [rng.choice([("csv", ","), ("csv", ";"), ("tsv", "\t")]) for _ in docs]
+    resp = vlib.yqh_parallel([{"op": "c14_enc", "fmt": f, "sep": sep, "node": to_node(d)} for d, (f, sep) in zip(docs, fmts)])
+    cases, inputs = [], []
+    for d, (f, sep), r in zip(docs, fmts, resp):
+        rp = {"fmt": f, "sep": sep, "doc": d}
+        chk.count(("csvobj", f, sep, json.dumps(d)), nontrivial=len(d) > 1)
+        if r is None or r.get("panic") or r.get("timeout") or r.get("crash") or r.get("harness_error"):
+            cx.viol("csvobj", dict(rp, response=r), "csv encoder crashed")
+            continue
+        out = vlib.b64d(r["out_b64"]) if ok(r) else None
+        flat = json.dumps(d)
+        if "\\u0000" not in flat and "\\u0001" not in flat:
+            cases.append(("(%d, %s)" % (ord(sep), coq_cnode(d)), b"O" + out if out is not None else b"E"))
+            inputs.append(rp)
+        is_objs = len(d) > 0 and all(isinstance(o, dict) for o in d)
+        if not is_objs:
+            continue
+        scalar_only = all(isinstance(v, str) for o in d for v in o.values())
+        if not scalar_only:
+            if out is not None:
+                cx.viol("csvobj", dict(rp, impl_out=out.decode("utf-8", "replace")), "csv encoder accepted an object with a non-scalar value")
+            continue
+        if out is None:
+            cx.viol("csvobj", dict(rp, response=r), "csv encoder failed on an array of flat objects")
+            continue
+        hdr = list(d[0].keys())
+        want = [hdr] + [[o.get(k, "") for k in hdr] for o in d]
+        try:
+            back = py_csv_read(out.decode("utf-8"), sep)
+        except Exception as ex:
+            back = "python csv reader failed: %s" % ex
+        extra = any(k not in hdr for o in d for k in o)
+        if [x for x in back if x != []] != [x for x in want if x != [""]] if isinstance(back, list) else True:
+            cx.viol("csvobj", dict(rp, impl_out=out.decode("utf-8", "replace"), python_reads=back, want=want),
+                    "python's csv reader does not find header = keys of the first object and one row per object (missing keys empty) in yq's output")
+        elif extra:
+            chk.known_finding("csv-extra-keys", "doc %r" % (d,))
+            if not chk.is_known("csv-extra-keys"):
+                cx.viol("csvobj", dict(rp, impl_out=out.decode("utf-8", "replace")), "a key that the first object lacks was dropped silently")
+    cx.correspond("csvobj", CSV_IMPORTS, "(fun p => csv_encode_obs (fst p) (snd p))", cases, inputs, "Model/Csv.v csv_encode vs encoder_csv.go (header / object logic)")
+    cx.dist["csv_objects"] = {"documents": len(docs)}
 
 
 # --------------------------------------------------------------------------
@@ -1021,7 +1092,731 @@ def sec_xml(cx):
         chk.count(("xmlop", json.dumps(e), ap), nontrivial=True)
         if got != want:
             cx.viol("xmlop", {"elem": e, "attr_prefix": ap, "content_name": cn, "want": want, "got": got}, "to_xml | from_xml is not the identity on an element-tree document")
+    # ---------- probe: character data with surrounding white space (recorded limit of the decoder) ----------
+    probes = [" x ", "x ", "\tx", "x\n"]
+    resp = vlib.yqh_parallel([{"op": "c14_op", "expr": "to_xml | from_xml", "node": M([("a", S(v))])} for v in probes])
+    for v, r in zip(probes, resp):
+        got = from_node(r["nodes"][0]) if ok(r) and len(r.get("nodes", [])) == 1 else None
+        chk.count(("xmltrim", v), nontrivial=True)
+        if got != {"a": v}:
+            if got == {"a": v.strip()}:
+                chk.known_finding("xml-text-trim", "value %r" % v)
+                if chk.is_known("xml-text-trim"):
+                    continue
+            cx.viol("xmlop", {"elem": ("a", [], v, []), "attr_prefix": "+@", "content_name": "+content", "want": {"a": v}, "got": got}, "to_xml | from_xml changes a string value")
     cx.dist["xml"] = {"element_trees": len(elems), "decode_texts": len(texts)}
+
+
+# --------------------------------------------------------------------------
+# TOML (decoder only: the encoder is scalar-only in the code; tokenizer is go-toml's, library contract)
+# --------------------------------------------------------------------------
+import tomllib, math, datetime
+
+TOML_KEYS = ["a", "b", "c", "key", "k-1", "k_2", "x", "y", "name", "id", "t", "1", "é", "a b", "q.r"]
+TOML_STR_CH = list("abz09 \"'\\=#[]{},.") + ["é", "中", "\U0001F600", "\n", "\t"]
+TOML_DT = ["1979-05-27T07:32:00Z", "1979-05-27T00:32:00-07:00", "1979-05-27T00:32:00.999999-07:00"]
+TOML_LOCAL = ["1979-05-27T07:32:00", "1979-05-27", "07:32:00"]
+SQ3 = "'" * 3
+DQ3 = '"' * 3
+
+
+def toml_key(k):
+    if re.fullmatch(r"[A-Za-z0-9_-]+", k):
+        return k
+    return json.dumps(k, ensure_ascii=False)
+
+
+def toml_str(rng, s):
+    r = rng.random()
+    if r < 0.2 and "'" not in s and "\n" not in s and "\t" not in s:
+        return "'" + s + "'"
+    if r < 0.3 and SQ3 not in s and not s.endswith("'"):
+        return SQ3 + "\n" + s + SQ3
+    if r < 0.4 and DQ3 not in s and "\\" not in s and not s.endswith('"'):
+        return DQ3 + "\n" + s + DQ3
+    out = []
+    for c in s:
+        if c == '"':
+            out.append('\\"')
+        elif c == "\\":
+            out.append("\\\\")
+        elif c == "\n":
+            out.append("\\n")
+        elif c == "\t":
+            out.append(rng.choice(["\\t", "\t"]))
+        elif ord(c) > 127 and rng.random() < 0.3:
+            out.append("\\u%04X" % ord(c) if ord(c) < 0x10000 else "\\U%08X" % ord(c))
+        else:
+            out.append(c)
+    return '"' + "".join(out) + '"'
+
+
+def gen_toml_scalar(rng, allow_local=False):
+    r = rng.random()
+    if r < 0.35:
+        return toml_str(rng, "".join(rng.choice(TOML_STR_CH) for _ in range(rng.choice([0, 1, 3, 6]))))
+    if r < 0.55:
+        return rng.choice(["0", "42", "-17", "+5", "1_000", "0xDEAD_beef", "0o755", "0b1101", "9223372036854775807", "-9223372036854775808", str(rng.randrange(-10 ** 6, 10 ** 6))])
+    if r < 0.7:
+        return rng.choice(["1.5", "-0.01", "+1.0", "5e+22", "1e06", "-2E-2", "6.626e-34", "9_224.5", "inf", "-inf", "+inf", "nan", "3.14159"])
+    if r < 0.85:
+        return rng.choice(["true", "false"])
+    if allow_local and rng.random() < 0.5:
+        return rng.choice(TOML_LOCAL)
+    return rng.choice(TOML_DT)
+
+
+def gen_toml_value(rng, depth=0, allow_local=False):
+    """TOML source text of a value (inline)"""
+    r = rng.random()
+    if depth >= 2 or r < 0.6:
+        return gen_toml_scalar(rng, allow_local)
+    if r < 0.8:
+        return "[" + ", ".join(gen_toml_value(rng, depth + 1, allow_local) for _ in range(rng.randrange(0, 4))) + "]"
+    ks = rng.sample(TOML_KEYS, rng.randrange(0, 3))
+    return "{" + ", ".join("%s = %s" % (toml_key(k), gen_toml_value(rng, depth + 1, allow_local)) for k in ks) + "}"
+
+
+def gen_toml_doc(rng, allow_local=False):
+    lines = []
+    for k in rng.sample(TOML_KEYS, rng.randrange(0, 4)):
+        if rng.random() < 0.15:
+            lines.append("%s.%s = %s" % (toml_key(k), toml_key(rng.choice(["p", "q"])), gen_toml_value(rng, 0, allow_local)))
+        else:
+            lines.append("%s = %s" % (toml_key(k), gen_toml_value(rng, 0, allow_local)))
+        if rng.random() < 0.1:
+            lines.append("# comment")
+    used = set()
+    for _ in range(rng.randrange(0, 4)):
+        t = rng.choice(["t1", "t2", "srv", "owner"])
+        if rng.random() < 0.3:
+            t = t + "." + rng.choice(["sub", "x"])
+        if t in used or any(u.startswith(t + ".") or t.startswith(u + ".") for u in used):
+            continue
+        used.add(t)
+        if rng.random() < 0.35:
+            for _ in range(rng.randrange(1, 4)):
+                lines.append("")
+                lines.append("[[%s]]" % t)
+                for k in rng.sample(TOML_KEYS, rng.randrange(1, 3)):
+                    lines.append("%s = %s" % (toml_key(k), gen_toml_value(rng, 1, allow_local)))
+        else:
+            lines.append("")
+            lines.append("[%s]" % t)
+            for k in rng.sample(TOML_KEYS, rng.randrange(0 if rng.random() < 0.1 else 1, 3)):
+                lines.append("%s = %s" % (toml_key(k), gen_toml_value(rng, 1, allow_local)))
+    return "\n".join(lines) + "\n"
+
+
+def toml_same(got, want):
+    """yq's decoded tree (python value via from_node) against tomllib's value"""
+    if isinstance(want, dict):
+        return isinstance(got, dict) and list(got.keys()) == list(want.keys()) and all(toml_same(got[k], want[k]) for k in want)
+    if isinstance(want, list):
+        return isinstance(got, list) and len(got) == len(want) and all(toml_same(g, w) for g, w in zip(got, want))
+    if isinstance(want, bool) or isinstance(got, bool):
+        return got is want
+    if isinstance(want, float):
+        if isinstance(got, (int, float)) and not isinstance(got, bool):
+            return (math.isnan(want) and isinstance(got, float) and math.isnan(got)) or float(got) == want
+        return False
+    if isinstance(want, int):
+        return isinstance(got, int) and got == want
+    if isinstance(want, (datetime.datetime, datetime.date, datetime.time)):
+        if not (isinstance(got, tuple) and len(got) == 2):
+            return False
+        txt = got[1].replace(" ", "T")
+        return txt.upper().replace("Z", "+00:00") == want.isoformat().upper()
+    return got == want
+
+
+def toml_empty_headers(t):
+    """paths of [table] headers that are directly followed by another header or the end of the text"""
+    lines = [ln.strip() for ln in t.split("\n")]
+    lines = [ln for ln in lines if ln and not ln.startswith("#")]
+    out = []
+    for i, ln in enumerate(lines):
+        m = re.fullmatch(r"\[([A-Za-z0-9_.-]+)\]", ln)
+        if m and i + 1 < len(lines) and lines[i + 1].startswith("["):
+            out.append(m.group(1).split("."))
+    return out
+
+
+def toml_prune(want, path):
+    if not path or not isinstance(want, dict) or path[0] not in want:
+        return
+    if len(path) == 1:
+        if want[path[0]] == {}:
+            del want[path[0]]
+        return
+    toml_prune(want[path[0]], path[1:])
+    if want[path[0]] == {}:
+        del want[path[0]]
+
+
+def toml_defect(t, want, got, r):
+    """signatures of the recorded TOML defects; None for anything else"""
+    heads = re.findall(r"^\[\[([A-Za-z0-9_.-]+)\]\]\s*$", t, re.M)
+    if ok(r) and r.get("node") is None and re.search(r"^\[\[[^\]]+\]\]\s*\n(\s*\n)*\[", t, re.M):
+        return "toml-empty-array-table"
+    if not ok(r) and any(re.search(r"^\[\[?" + re.escape(h) + r"\.", t, re.M) for h in heads):
+        return "toml-array-subtable"
+    if not ok(r):
+        if re.search(r"(?<![A-Za-z0-9_\"'])0b[01]", t):
+            return "toml-binary-int"
+        if any(re.search(r"(?<![0-9T:-])" + re.escape(tok) + r"(?![0-9:Z+-])", t) for tok in ("1979-05-27T07:32:00", "1979-05-27", "07:32:00")):
+            return "toml-local-datetime"
+        return None
+    hs = toml_empty_headers(t)
+    if hs:
+        import copy
+        w2 = copy.deepcopy(want)
+        for h in hs:
+            toml_prune(w2, h)
+        if toml_same(got, w2):
+            return "toml-empty-table"
+    return None
+
+
+@section
+def sec_toml(cx):
+    chk, rng = cx.chk, cx.rng
+    texts = [gen_toml_doc(rng) for _ in range(cx.n(400, 8000))]
+    texts += ['a = 1\nb = "x"\n[t]\nc = true\n[[arr]]\nn = 1\n[[arr]]\nn = 2\n', 'p = { x = 1, y = { z = "w" } }\nq = [1, 2.5, "s", [true]]\n', "a.b.c = 1\na.b.d = 2\n",
+              '[a]\nx = 1\n[a.b]\ny = 2\n[c]\n', '[[a]]\nx = 1\n[a.b]\ny = 2\n', '[[a]]\nn = 1\n[[a.b]]\nx = 1\n[[a.b]]\nx = 2\n[[a]]\nn = 2\n', '[[a]]\n[[a]]\nx = 1\n',
+              '[a]\nb.c = 1\nb.d = 2\n', '[a.b.c]\nx = 1\n[a]\ny = 2\n', 'a = [ {x = 1}, {x = 2} ]\n', "s = " + SQ3 + "\nl1\nl2" + SQ3 + "\n"]
+    local = [gen_toml_doc(rng, True) for _ in range(cx.n(60, 600))] + ["d = 1979-05-27\n", "t = 07:32:00\n", "dt = 1979-05-27T07:32:00\n"]
+    allt = [(t, False) for t in texts] + [(t, True) for t in local]
+    resp = vlib.yqh_parallel([{"op": "c14_dec", "fmt": "toml", "text_b64": vlib.b64e(t)} for t, _ in allt])
+    nbad = 0
+    for (t, loc), r in zip(allt, resp):
+        try:
+            want = tomllib.loads(t)
+        except Exception:
+            nbad += 1
+            continue
+        rp = {"text": t, "text_b64": vlib.b64e(t)}
+        chk.count(("toml", t), nontrivial=len(want) > 0, sample={"toml": t, "json": json.dumps(want, default=str)} if 30 < len(t) < 120 and "[" in t else None)
+        if r is None or r.get("panic") or r.get("timeout") or r.get("crash") or r.get("harness_error"):
+            cx.viol("tomldec", dict(rp, response=r), "toml decoder crashed")
+            continue
+        if not want:
+            continue            # an empty document is io.EOF for the decoder
+        got = from_node(r["node"]) if ok(r) and r.get("node") is not None else None
+        if not toml_same(got, want):
+            sig = toml_defect(t, want, got, r)
+            if sig:
+                chk.known_finding(sig, "text %r" % t[:80])
+                if chk.is_known(sig):
+                    continue
+            cx.viol("tomldec", dict(rp, want=json.loads(json.dumps(want, default=str)), got=json.loads(json.dumps(got, default=str)), response=r if not ok(r) else None),
+                    "yq's toml decoder does not build the value that the TOML text denotes (per python's tomllib)")
+    if nbad > len(allt) // 10:
+        cx.broken.append("generator: tomllib rejects %d of %d generated TOML documents" % (nbad, len(allt)))
+    # encoder: scalars only, anything else is an explicit error
+    docs = [S("x"), S("12", "!!int"), M([("a", S("b"))]), Q([S("a")]), M([])]
+    resp = vlib.yqh_parallel([{"op": "c14_enc", "fmt": "toml", "node": n} for n in docs])
+    for n, r in zip(docs, resp):
+        chk.count(("tomlenc", json.dumps(n)), nontrivial=True)
+        good = (ok(r) and vlib.b64d(r["out_b64"]) == sval(n) + b"\n") if n["k"] == "s" else failed_cleanly(r)
+        if not good:
+            cx.viol("tomlenc", {"node": n, "response": r}, "toml encoder: a scalar must print as its text, a collection must be rejected")
+    cx.dist["toml"] = {"documents": len(allt), "rejected_by_tomllib": nbad}
+
+
+# --------------------------------------------------------------------------
+# Lua (encoder's own escaping / key syntax is modelled: Model/LuaStr.v; the decoder runs gopher-lua: library contract)
+# --------------------------------------------------------------------------
+LUA_IMPORTS = "From YQ Require Import Base.Str Model.LuaStr."
+LUA_KEYWORDS = ["do", "and", "else", "break", "if", "end", "goto", "false", "in", "for", "then", "local", "or", "nil", "true", "until",
+                "elseif", "function", "not", "repeat", "return", "while"]
+
+
+class LuaSyntax(Exception):
+    pass
+
+
+def lua_read(src):
+    """independent reader for the subset of Lua a data file uses: `return <value>;` or global assignments.
+    Returns python values; tables become list (keys 1..n in order) or dict."""
+    pos = 0
+    n = len(src)
+
+    def ws():
+        nonlocal pos
+        while pos < n:
+            if src[pos:pos + 1] in (b" ", b"\t", b"\n", b"\r"):
+                pos += 1
+            elif src[pos:pos + 2] == b"--":
+                while pos < n and src[pos:pos + 1] != b"\n":
+                    pos += 1
+            else:
+                break
+
+    def expect(tok):
+        nonlocal pos
+        ws()
+        if src[pos:pos + len(tok)] != tok:
+            raise LuaSyntax("expected %r at %d" % (tok, pos))
+        pos += len(tok)
+
+    def string():
+        nonlocal pos
+        q = src[pos:pos + 1]
+        pos += 1
+        out = bytearray()
+        while True:
+            if pos >= n:
+                raise LuaSyntax("unterminated string")
+            c = src[pos]
+            if src[pos:pos + 1] == q:
+                pos += 1
+                return bytes(out)
+            if c == 10:
+                raise LuaSyntax("newline in string")
+            if c == 92:
+                pos += 1
+                d = src[pos:pos + 1]
+                simple = {b"a": 7, b"b": 8, b"f": 12, b"n": 10, b"r": 13, b"t": 9, b"v": 11, b"\\": 92, b'"': 34, b"'": 39, b"\n": 10}
+                if d in simple:
+                    out.append(simple[d])
+                    pos += 1
+                elif d.isdigit():
+                    j = pos
+                    while j < pos + 3 and src[j:j + 1].isdigit():
+                        j += 1
+                    v = int(src[pos:j])
+                    if v > 255:
+                        raise LuaSyntax("decimal escape too large")
+                    out.append(v)
+                    pos = j
+                elif d == b"x":
+                    out.append(int(src[pos + 1:pos + 3], 16))
+                    pos += 3
+                else:
+                    raise LuaSyntax("bad escape %r" % d)
+            else:
+                out.append(c)
+                pos += 1
+
+    def longstring():
+        nonlocal pos
+        m = re.match(rb"\[(=*)\[", src[pos:])
+        lvl = m.group(1)
+        pos += len(m.group(0))
+        if src[pos:pos + 2] == b"\r\n":
+            pos += 2
+        elif src[pos:pos + 1] in (b"\n", b"\r"):
+            pos += 1
+        end = src.find(b"]" + lvl + b"]", pos)
+        if end < 0:
+            raise LuaSyntax("unterminated long string")
+        v = src[pos:end]
+        pos = end + len(lvl) + 2
+        return v
+
+    def value():
+        nonlocal pos
+        ws()
+        c = src[pos:pos + 1]
+        if c in (b'"', b"'"):
+            return string()
+        if re.match(rb"\[=*\[", src[pos:]):
+            return longstring()
+        if c == b"{":
+            return table()
+        for tok, v in ((b"(1/0)", float("inf")), (b"(-1/0)", float("-inf")), (b"(0/0)", float("nan"))):
+            if src[pos:pos + len(tok)] == tok:
+                pos += len(tok)
+                return v
+        m = re.match(rb"-?(0[xX][0-9a-fA-F]+|[0-9]+\.?[0-9]*([eE][+-]?[0-9]+)?|\.[0-9]+([eE][+-]?[0-9]+)?)", src[pos:])
+        if m:
+            pos += len(m.group(0))
+            t = m.group(0).decode()
+            if re.fullmatch(r"-?[0-9]+", t):
+                return int(t)
+            if "x" in t.lower():
+                return int(t, 16)
+            return float(t)
+        m = re.match(rb"[A-Za-z_][A-Za-z0-9_]*", src[pos:])
+        if m:
+            w = m.group(0)
+            pos += len(w)
+            if w == b"nil":
+                return None
+            if w == b"true":
+                return True
+            if w == b"false":
+                return False
+            raise LuaSyntax("unexpected name %r" % w)
+        raise LuaSyntax("unexpected %r at %d" % (src[pos:pos + 10], pos))
+
+    def table():
+        nonlocal pos
+        expect(b"{")
+        arr, rec = [], []
+        while True:
+            ws()
+            if src[pos:pos + 1] == b"}":
+                pos += 1
+                break
+            if src[pos:pos + 1] == b"[" and not re.match(rb"\[=*\[", src[pos:]):
+                pos += 1
+                k = value()
+                expect(b"]")
+                expect(b"=")
+                rec.append((k, value()))
+            else:
+                m = re.match(rb"([A-Za-z_][A-Za-z0-9_]*)\s*=(?!=)", src[pos:])
+                if m and m.group(1).decode() not in LUA_KEYWORDS:
+                    pos += len(m.group(0))
+                    rec.append((m.group(1), value()))
+                else:
+                    arr.append(value())
+            ws()
+            if src[pos:pos + 1] in (b",", b";"):
+                pos += 1
+        if rec and arr:
+            raise LuaSyntax("mixed table (outside the reader's subset)")
+        if rec:
+            d = {}
+            for k, v in rec:
+                if k in d:
+                    raise LuaSyntax("duplicate key")
+                d[k] = v
+            return d
+        return arr
+
+    ws()
+    if src[pos:pos + 6] == b"return":
+        pos += 6
+        v = value()
+        ws()
+        if src[pos:pos + 1] == b";":
+            pos += 1
+        ws()
+        if pos != n:
+            raise LuaSyntax("trailing text")
+        return v
+    glob = {}
+    while True:
+        ws()
+        if pos >= n:
+            return glob
+        m = re.match(rb"_ENV\s*\[", src[pos:])
+        if m:
+            pos += len(m.group(0))
+            k = value()
+            expect(b"]")
+        else:
+            m = re.match(rb"[A-Za-z_][A-Za-z0-9_]*", src[pos:])
+            if not m or m.group(0).decode() in LUA_KEYWORDS:
+                raise LuaSyntax("bad statement at %d" % pos)
+            k = m.group(0)
+            pos += len(k)
+        expect(b"=")
+        glob[k] = value()
+        ws()
+        if src[pos:pos + 1] == b";":
+            pos += 1
+
+
+LUA_STR_CH = [bytes([b]) for b in list(range(0, 40)) + [92, 127, 128, 255, 34, 39, 93, 91, 61]] + [b"a", b"z", b"0", b"9", b" ", "é".encode(), "中".encode()]
+LUA_KEYS = ["a", "b", "key", "_x", "x1", "end", "nil", "while", "a b", "1a", "a-b", "", "é", "\n", "true", "K_9"]
+
+
+def gen_lua_bytes(rng):
+    return b"".join(rng.choice(LUA_STR_CH) for _ in range(rng.choice([0, 1, 2, 3, 5, 8])))
+
+
+def gen_lua_tree(rng, depth=0):
+    """python value: bytes (strings), int, float, bool, list, dict with bytes keys (non-empty containers below the root)"""
+    r = rng.random()
+    if depth >= 3 or r < 0.5:
+        k = rng.random()
+        if k < 0.5:
+            return gen_lua_bytes(rng)
+        if k < 0.7:
+            return rng.choice([0, 1, -1, 42, 2 ** 31, -(2 ** 40), 9007199254740991, rng.randrange(-10 ** 9, 10 ** 9)])
+        if k < 0.8:
+            return rng.choice([1.5, -0.25, 1e+100, 3.14159, 1e-07])
+        return rng.choice([True, False])
+    if r < 0.72:
+        return [gen_lua_tree(rng, depth + 1) for _ in range(rng.randrange(1, 4))]
+    d = {}
+    for k in rng.sample(LUA_KEYS, rng.randrange(1, 4)):
+        d[k.encode()] = gen_lua_tree(rng, depth + 1)
+    return d
+
+
+def lua_node(v):
+    if isinstance(v, dict):
+        return M([(S(k), lua_node(x)) for k, x in v.items()])
+    if isinstance(v, list):
+        return Q([lua_node(x) for x in v])
+    if isinstance(v, bytes):
+        return S(v)
+    if v is True or v is False:
+        return S("true" if v else "false", "!!bool")
+    if isinstance(v, int):
+        return S(str(v), "!!int")
+    if isinstance(v, float):
+        return S(repr(v), "!!float")
+    raise ValueError(v)
+
+
+def lua_from_node(d):
+    """decoded tree -> python value with bytes strings; dict keys bytes (int keys as ints)"""
+    if d["k"] == "s":
+        raw, t = sval(d), d["t"]
+        if t == "!!str":
+            return raw
+        if t == "!!null":
+            return None
+        if t == "!!bool":
+            return raw == b"true"
+        if t == "!!int":
+            try:
+                return int(raw)
+            except ValueError:
+                return float(raw)
+        if t == "!!float":
+            return float(raw.decode().replace(".inf", "inf").replace(".nan", "nan"))
+        return (t, raw)
+    if d["k"] == "q":
+        return [lua_from_node(c) for c in d["c"]]
+    out = {}
+    for i in range(0, len(d["c"]), 2):
+        out[lua_from_node(d["c"][i])] = lua_from_node(d["c"][i + 1])
+    return out
+
+
+def lua_same(got, want):
+    if isinstance(want, (dict, list)) and not want:
+        return isinstance(got, (dict, list)) and not got        # the empty table is both
+    if isinstance(want, dict):
+        return isinstance(got, dict) and set(got.keys()) == set(want.keys()) and all(lua_same(got[k], want[k]) for k in want)
+    if isinstance(want, list):
+        return isinstance(got, list) and len(got) == len(want) and all(lua_same(g, w) for g, w in zip(got, want))
+    if isinstance(want, bool) or isinstance(got, bool):
+        return got is want
+    if isinstance(want, (int, float)):
+        if not isinstance(got, (int, float)):
+            return False
+        if isinstance(want, float) and want != want:
+            return got != got
+        return float(got) == float(want)
+    return got == want
+
+
+def lua_str_lit(rng, b):
+    """ground-truth Lua string literal for bytes b"""
+    q = rng.choice(['"', "'"])
+    out = []
+    for i, c in enumerate(b):
+        ch = chr(c)
+        nxt_digit = i + 1 < len(b) and chr(b[i + 1]).isdigit()
+        if ch == q or ch == "\\":
+            out.append("\\" + ch)
+        elif c == 10:
+            out.append(rng.choice(["\\n", "\\10" if not nxt_digit else "\\010"]))
+        elif c < 32 or c == 127 or (c >= 128 and rng.random() < 0.3):
+            out.append("\\%03d" % c if nxt_digit or rng.random() < 0.5 else "\\%d" % c)
+        else:
+            out.append(ch)
+    return (q + "".join(out) + q).encode("latin1")
+
+
+def lua_write(rng, v, indent=""):
+    if isinstance(v, dict):
+        items = []
+        for k, x in v.items():
+            ks = k.decode("latin1")
+            if re.fullmatch(r"[A-Za-z_][A-Za-z0-9_]*", ks) and ks not in LUA_KEYWORDS and rng.random() < 0.5:
+                items.append(k + b" = " + lua_write(rng, x, indent + "  "))
+            else:
+                items.append(b"[" + lua_str_lit(rng, k) + b"] = " + lua_write(rng, x, indent + "  "))
+        sep = rng.choice([b", ", b";\n" + indent.encode(), b",\n"])
+        return b"{" + sep.join(items) + rng.choice([b"", b",", b";"]) + b"}"
+    if isinstance(v, list):
+        return b"{" + b", ".join(lua_write(rng, x, indent + "  ") for x in v) + b"}"
+    if isinstance(v, bytes):
+        return lua_str_lit(rng, v)
+    if v is True:
+        return b"true"
+    if v is False:
+        return b"false"
+    if isinstance(v, int):
+        return (hex(v) if v >= 0 and rng.random() < 0.15 else str(v)).encode()
+    return repr(v).encode()
+
+
+def lua_has_empty_key(v):
+    if isinstance(v, dict):
+        return b"" in v or any(lua_has_empty_key(x) for x in v.values())
+    if isinstance(v, list):
+        return any(lua_has_empty_key(x) for x in v)
+    return False
+
+
+@section
+def sec_lua(cx):
+    chk, rng = cx.chk, cx.rng
+    trees = [gen_lua_tree(rng) for _ in range(cx.n(300, 6000))]
+    trees += [bytes([b]) for b in range(256)] + [b"\\n", b"]]", b"a]]b]=]", b"\0001", b"\x1f9", {b"end": b"x", b"ok": [1, 2]}, [], {}]
+    # ---------- encode: yq writes, the lua reader above reads; string literals against the model ----------
+    cfgs = [rng.choice([{}, {}, {"lua_unquoted": True}, {"lua_globals": True}]) for _ in trees]
+    reqs = []
+    for v, cfg in zip(trees, cfgs):
+        if cfg.get("lua_globals") and not isinstance(v, dict):
+            cfg.clear()
+        reqs.append(dict({"op": "c14_enc", "fmt": "lua", "node": lua_node(v)}, **cfg))
+    resp = vlib.yqh_parallel(reqs)
+    cases, inputs = [], []
+    for v, cfg, r in zip(trees, cfgs, resp):
+        rp = {"tree": lua_node(v), "cfg": cfg}
+        chk.count(("luaw", json.dumps(lua_node(v)), json.dumps(cfg)), nontrivial=not isinstance(v, bytes) or any(c < 32 or c in (34, 39, 92, 127) for c in v),
+                  sample={"lua": vlib.b64d(r["out_b64"]).decode("latin1")} if ok(r) and isinstance(v, dict) and len(r["out_b64"]) < 160 else None)
+        if not ok(r):
+            cx.viol("luaenc", dict(rp, response=r), "lua encoder failed on a tree")
+            continue
+        out = vlib.b64d(r["out_b64"])
+        if isinstance(v, bytes) and not cfg:
+            cases.append((vlib.coq_str(v), out))
+            inputs.append(rp)
+        try:
+            back = lua_read(out)
+        except LuaSyntax as ex:
+            back = "not readable as Lua data: %s" % ex
+        want = v
+        if cfg.get("lua_globals"):
+            want = dict(v)
+        if not lua_same(back, want if not (isinstance(want, dict) and not want) else []):
+            if cfg and lua_has_empty_key(v) and isinstance(back, str):
+                chk.known_finding("lua-empty-unquoted-key", "tree %r" % (v,))
+                if chk.is_known("lua-empty-unquoted-key"):
+                    continue
+            cx.viol("luaenc", dict(rp, impl_out=out.decode("latin1"), reads=repr(back)), "a Lua reader does not map yq's Lua output back to the tree")
+    cx.correspond("luastr", LUA_IMPORTS, "lua_document", cases, inputs, "Model/LuaStr.v lua_quote vs encoder_lua.go")
+    # unquoted-key predicate against the model
+    keys = [k.encode() for k in LUA_KEYS + LUA_KEYWORDS + ["a1", "A", "_", "9", "a.b", "aé"] if k]
+    resp = vlib.yqh_parallel([{"op": "c14_enc", "fmt": "lua", "lua_unquoted": True, "node": M([(S(k), S("v"))])} for k in keys])
+    cases, inputs = [], []
+    for k, r in zip(keys, resp):
+        if ok(r):
+            cases.append((vlib.coq_str(k), vlib.b64d(r["out_b64"])))
+            inputs.append({"key_b64": vlib.b64e(k)})
+    cx.correspond("luakey", LUA_IMPORTS, "lua_unquoted_doc", cases, inputs, "Model/LuaStr.v lua_needs_quoting vs encoder_lua.go needsQuoting")
+    # ---------- decode: ground truth written here, yq (gopher-lua) reads ----------
+    srcs = []
+    for v in trees:
+        if isinstance(v, dict) and not v:
+            continue
+        body = lua_write(rng, v)
+        srcs.append((b"return " + body + rng.choice([b"", b";", b";\n", b"\n-- end\n"]), v))
+    resp = vlib.yqh_parallel([{"op": "c14_dec", "fmt": "lua", "text_b64": vlib.b64e(t)} for t, _ in srcs])
+    for (t, v), r in zip(srcs, resp):
+        rp = {"src": t.decode("latin1"), "text_b64": vlib.b64e(t)}
+        try:
+            sane = lua_same(lua_read(t), v)
+        except LuaSyntax:
+            sane = False
+        if not sane:
+            cx.broken.append("generator: the lua reader does not read back the generated source %r" % t[:80])
+            continue
+        chk.count(("luar", t), nontrivial=not isinstance(v, (int, float, bool)))
+        got = lua_from_node(r["node"]) if ok(r) and r.get("node") else None
+        if not lua_same(got, v):
+            cx.viol("luadec", dict(rp, want=repr(v), got=repr(got), response=r if not ok(r) else None), "yq's lua decoder does not build the value the Lua source denotes")
+    cx.dist["lua"] = {"trees": len(trees), "sources": len(srcs)}
+
+
+# --------------------------------------------------------------------------
+# in-expression pairs (operator_encoder_decoder.go: encodeOperator / decodeOperator incl. the newline chomping)
+# --------------------------------------------------------------------------
+SAFE_CH = list("ghjkmpqwz") + ["é", "中", " ", "_", "/"]
+
+
+def gen_safe_str(rng):
+    """a string that no YAML / CSV scalar re-typing can turn into another type (contains a letter outside hex / inf / nan / true / false / null)"""
+    body = "".join(rng.choice(SAFE_CH + list("ab019")) for _ in range(rng.choice([0, 1, 2, 4, 7])))
+    return (rng.choice("ghjkmpqwz") + body).rstrip(" ") or "g"
+
+
+def gen_json_tree(rng, depth=0):
+    r = rng.random()
+    if depth >= 3 or r < 0.5:
+        k = rng.random()
+        if k < 0.5:
+            return gen_safe_str(rng)
+        if k < 0.7:
+            return rng.choice([0, 1, -7, 42, 123456789, -2 ** 31])
+        if k < 0.85:
+            return rng.choice([True, False])
+        return None
+    if r < 0.72:
+        return [gen_json_tree(rng, depth + 1) for _ in range(rng.randrange(0, 4))]
+    return {gen_safe_str(rng): gen_json_tree(rng, depth + 1) for _ in range(rng.randrange(0, 4))}
+
+
+@section
+def sec_ops(cx):
+    chk, rng = cx.chk, cx.rng
+    trees = [gen_json_tree(rng) for _ in range(cx.n(150, 3000))]
+    reqs, meta = [], []
+    for t in trees:
+        for expr in ("to_json | from_json", "@json | from_json", "to_yaml | from_yaml", "to_json(0)", "@yaml | from_yaml"):
+            reqs.append({"op": "c14_op", "expr": expr, "node": to_node(t)})
+            meta.append((expr, t))
+    # flat maps through properties, rows / objects through csv and tsv
+    flats = [{gen_safe_str(rng).replace(" ", "_"): gen_safe_str(rng) for _ in range(rng.randrange(1, 4))} for _ in range(cx.n(80, 1500))]
+    for d in flats:
+        reqs.append({"op": "c14_op", "expr": "to_props | from_props", "node": to_node(d)})
+        meta.append(("to_props | from_props", d))
+    objs = []
+    for _ in range(cx.n(80, 1500)):
+        hdr = list(dict.fromkeys(gen_safe_str(rng) for _ in range(rng.randrange(1, 4))))
+        objs.append([{h: rng.choice([gen_safe_str(rng), rng.randrange(-99, 99), True, False, gen_safe_str(rng) + rng.choice([",", "\t", '"', "\n", ""])]) for h in hdr}
+                     for _ in range(rng.randrange(1, 4))])
+    for o in objs:
+        for expr in ("to_csv | from_csv", "to_tsv | from_tsv", "@csv | @csvd"):
+            reqs.append({"op": "c14_op", "expr": expr, "node": to_node(o)})
+            meta.append((expr, o))
+    resp = vlib.yqh_parallel(reqs)
+    for (expr, t), rq, r in zip(meta, reqs, resp):
+        chk.count(("op", expr, json.dumps(t)), nontrivial=isinstance(t, (dict, list)) and len(t) > 0)
+        res = r["nodes"][0] if ok(r) and len(r.get("nodes", [])) == 1 else None
+        if expr == "to_json(0)":
+            try:
+                good = res is not None and res["t"] == "!!str" and json.loads(sval(res)) == t and not sval(res).endswith(b"\n")
+            except Exception:
+                good = False
+        else:
+            good = res is not None and from_node(res) == t
+        if not good:
+            cx.viol("pairop", {"expr": expr, "node": rq["node"], "want": t, "got": from_node(res) if res else None, "response": r if not ok(r) else None},
+                    "in-expression pair %s is not the identity on a value of the format's domain" % expr)
+    # @csv / @tsv of one row: the record without its line end (chomped), byte-exact against the model and python's reader
+    rows = [[gen_field(rng) for _ in range(rng.choice([1, 2, 3, 4]))] for _ in range(cx.n(200, 4000))]
+    rows = [r_ for r_ in rows if r_ != [""]]
+    cfg = [rng.choice([("@csv", ","), ("@tsv", "\t"), ("to_csv", ",")]) for _ in rows]
+    resp = vlib.yqh_parallel([{"op": "c14_op", "expr": e, "node": Q([S(f) for f in row])} for row, (e, _) in zip(rows, cfg)])
+    cases, inputs = [], []
+    for row, (e, sep), r in zip(rows, cfg, resp):
+        res = sval(r["nodes"][0]) if ok(r) and len(r.get("nodes", [])) == 1 and r["nodes"][0]["k"] == "s" else None
+        chk.count(("csvop", e, json.dumps(row)), nontrivial=True)
+        try:
+            back = py_csv_read(res.decode("utf-8"), sep) if res is not None else None
+        except Exception:
+            back = None
+        if back != [row] or res.endswith(b"\n") and not row[-1].endswith("\n"):
+            cx.viol("csvop", {"expr": e, "row": row, "got": res.decode("utf-8", "replace") if res is not None else None, "response": r if not ok(r) else None},
+                    "%s of a row is not that row as one CSV record without a trailing line end" % e)
+        elif not any("\0" in f or "\1" in f for f in row):
+            cases.append(("(%d, %s)" % (ord(sep), "[" + ";".join(vlib.coq_str(f) for f in row) + "]"), res))
+            inputs.append({"expr": e, "row": row})
+    cx.correspond("csvop", CSV_IMPORTS, "(fun p => chomp (csv_write_record (fst p) (snd p)))", cases, inputs, "Model/Csv.v chomp o csv_write_record vs encodeOperator(@csv)")
+    cx.dist["ops"] = {"json_trees": len(trees), "flat_maps": len(flats), "object_arrays": len(objs), "rows": len(rows)}
 
 
 # --------------------------------------------------------------------------
